@@ -32,6 +32,11 @@ static _Atomic long failed_registers, handler_bursts, quit_reenters;
 static _Atomic int sig_target = -1;
 static pid_t child_pid;
 static _Atomic int child_alive;
+/* the forked child announces every post on one pipe and waits for an acknowledgement on another before the next one */
+static int ch_ann[2] = { -1, -1 }, ch_ack[2] = { -1, -1 };
+static _Atomic int ch_announced, ch_acked, ch_target = -1;
+static int64_t ch_stuck_since;
+static _Atomic long child_posts_acked, child_posts_lost;
 static int g_burst, bursts_done;
 
 static struct {
@@ -147,6 +152,52 @@ void hk_write(int fd, const void *buf, size_t n, long ret, int err, int nonblock
 		atomic_fetch_add(&eagain_writes, 1);
 }
 
+/* reads what the child announced so far and acknowledges every announced post (a handler run of the target object follows them all) */
+static void child_drain_announcements(void)
+{
+	char b[16];
+	long n;
+	while (ch_ann[0] >= 0 && (n = __real_read(ch_ann[0], b, sizeof(b))) > 0)
+		atomic_fetch_add(&ch_announced, (int)n);
+}
+
+static void child_ack(void)
+{
+	child_drain_announcements();
+	while (atomic_load(&ch_acked) < atomic_load(&ch_announced)) {
+		if (__real_write(ch_ack[1], "a", 1) != 1)
+			break;
+		atomic_fetch_add(&ch_acked, 1);
+		atomic_fetch_add(&child_posts_acked, 1);
+	}
+}
+
+/* every thread is blocked and the child is still there: if it has announced a post that no handler run has followed, the post is lost
+ * (the child made it right after the announcement and now waits for the acknowledgement for ever) */
+void hk_ext_stuck(void)
+{
+	int64_t now = mt_real_ns();
+	if (!atomic_load(&child_alive) || ch_ann[0] < 0)
+		return;
+	child_drain_announcements();
+	if (atomic_load(&ch_announced) <= atomic_load(&ch_acked)) {
+		ch_stuck_since = 0;
+		return;
+	}
+	if (ch_stuck_since == 0) {
+		ch_stuck_since = now;
+		return;
+	}
+	if (now - ch_stuck_since < 1000000000LL)
+		return;
+	ch_stuck_since = 0;
+	atomic_fetch_add(&child_posts_lost, 1);
+	mon_viol("C09", "lost-post-from-child", g_method,
+		 "the forked child announced post number %d to raw event %d and made it, but no handler run followed (%d acknowledged): every thread is blocked and the child waits for ever",
+		 (int)atomic_load(&ch_announced), (int)atomic_load(&ch_target), (int)atomic_load(&ch_acked));
+	__real_kill(child_pid, SIGKILL);
+}
+
 static void usr1_handler(int sig)
 {
 	(void)sig;
@@ -170,6 +221,8 @@ static void raw_cb(void *cookie)
 	atomic_store(&rw[i].last_entry_seq, seq_next());
 	atomic_fetch_add(&total_entries, 1);
 	ilv(lt->idx, 4, i);
+	if (atomic_load(&child_alive) && i == atomic_load(&ch_target))
+		child_ack();
 
 	if (mt_phase || actions_left[lt->idx] <= 0)
 		return;
@@ -365,14 +418,30 @@ static void run_case(long id, uint64_t seed)
 			atomic_fetch_add(&rw[tgt].inflight, 1);	/* keep it registered until the child was reaped */
 			vt_ext_add(1);
 			s = seq_next();
+			if (__real_pipe(ch_ann) < 0 || __real_pipe(ch_ack) < 0)
+				_exit(2);
+			fcntl(ch_ann[0], F_SETFL, O_NONBLOCK);
+			atomic_store(&ch_announced, 0); atomic_store(&ch_acked, 0); atomic_store(&ch_target, tgt);
+			ch_stuck_since = 0;
+			atomic_store(&child_alive, 1);	/* (before the fork: the handler may run for the child's first post at once) */
 			child_pid = fork();
 			if (child_pid == 0) {
 				int k;
-				for (k = 0; k < nposts; k++)
+				char b;
+				for (k = 0; k < nposts; k++) {
+					/* announce, post, and wait until the parent says that a handler run has followed */
+					if (write(ch_ann[1], "p", 1) != 1)
+						_exit(0);
 					iv_event_raw_post(rw[tgt].e);
+					while (read(ch_ack[0], &b, 1) < 0 && errno == EINTR)
+						;
+				}
 				_exit(0);
 			}
 			if (child_pid < 0) {
+				atomic_store(&child_alive, 0);
+				__real_close(ch_ann[0]); __real_close(ch_ann[1]); __real_close(ch_ack[0]); __real_close(ch_ack[1]);
+				ch_ann[0] = ch_ann[1] = ch_ack[0] = ch_ack[1] = -1;
 				vt_ext_add(-1);
 				atomic_fetch_sub(&rw[tgt].inflight, 1);
 			} else {
@@ -384,6 +453,11 @@ static void run_case(long id, uint64_t seed)
 					;
 				atomic_store(&child_alive, 1);
 				S.children++;
+				/* the posting threads are joined first (a thread that has exited keeps its place in the shim's running account until it
+				 * is joined: no quiescence - and no look at a stuck child - could be reached while this thread waits for the child) */
+				for (i = 0; i < np; i++)
+					pthread_join(posters[i].th, NULL);
+				np = 0;
 				/* wait for the child here (the owner cannot tear the object down before) */
 				vt_block_begin();
 				{
@@ -393,6 +467,9 @@ static void run_case(long id, uint64_t seed)
 				}
 				vt_block_end();
 				atomic_store(&child_alive, 0);
+				atomic_store(&ch_target, -1);
+				__real_close(ch_ann[0]); __real_close(ch_ann[1]); __real_close(ch_ack[0]); __real_close(ch_ack[1]);
+				ch_ann[0] = ch_ann[1] = ch_ack[0] = ch_ack[1] = -1;
 				vt_ext_add(-1);
 				atomic_fetch_sub(&rw[tgt].inflight, 1);
 			}
@@ -435,12 +512,12 @@ int main(int argc, char **argv)
 		run_case(i, seed);
 	mon_printf("STAT method=%s cases=%llu posts=%llu handler_entries=%llu posts_from_threads=%llu posts_from_signal_handler=%llu posts_from_owner=%llu "
 		   "posts_from_forked_child=%llu burst_posts=%llu bursts=%llu children=%llu obligations=%llu discharged=%llu nonblocking_writes_checked=%llu "
-		   "eagain_writes=%llu failed_registers_under_fault=%llu bursts_from_handler=%llu quit_and_reenter=%llu priority_deferrals=%llu shim_quiescences=%llu sig_deliveries=%llu injected=%llu violations=%d\n",
+		   "eagain_writes=%llu failed_registers_under_fault=%llu bursts_from_handler=%llu child_posts_acknowledged=%ld quit_and_reenter=%llu priority_deferrals=%llu shim_quiescences=%llu sig_deliveries=%llu injected=%llu violations=%d\n",
 		   g_method, (unsigned long long)S.cases, (unsigned long long)S.posts, (unsigned long long)S.entries,
 		   (unsigned long long)S.thread_posts, (unsigned long long)S.sig_posts, (unsigned long long)S.owner_posts,
 		   (unsigned long long)S.child_posts, (unsigned long long)S.burst_posts, (unsigned long long)S.bursts,
 		   (unsigned long long)S.children, (unsigned long long)S.obligations, (unsigned long long)S.discharged,
-		   (unsigned long long)blocking_checked, (unsigned long long)eagain_writes, (unsigned long long)failed_registers, (unsigned long long)handler_bursts, (unsigned long long)quit_reenters,
+		   (unsigned long long)blocking_checked, (unsigned long long)eagain_writes, (unsigned long long)failed_registers, (unsigned long long)handler_bursts, (long)child_posts_acked, (unsigned long long)quit_reenters,
 		   (unsigned long long)vt_stats.pct_deferrals, (unsigned long long)vt_stats.quiescences, (unsigned long long)vt_stats.sig_deliveries,
 		   (unsigned long long)vt_stats.injected, mon_viol_total);
 	mon_printf("DONE\n");
